@@ -150,14 +150,26 @@ class DeviceInfoCache:
         # get the current keys
         cache_id, cache_address = getattr(device_info, '_cache_keys', (None, None))
 
-        if (cache_id is not None) and (device_info.deviceIdentifier != cache_id):
+        if (cache_id is None) and (device_info.deviceIdentifier is not None):
+            if _debug: DeviceInfoCache._debug("    - new device identifier")
+
+            # first time this record is seen, add the reference
+            self.cache[device_info.deviceIdentifier] = device_info
+
+        elif (cache_id is not None) and (device_info.deviceIdentifier != cache_id):
             if _debug: DeviceInfoCache._debug("    - device identifier updated")
 
             # remove the old reference, add the new one
             del self.cache[cache_id]
             self.cache[device_info.deviceIdentifier] = device_info
 
-        if (cache_address is not None) and (device_info.address != cache_address):
+        if (cache_address is None) and (device_info.address is not None):
+            if _debug: DeviceInfoCache._debug("    - new device address")
+
+            # first time this record is seen, add the reference
+            self.cache[device_info.address] = device_info
+
+        elif (cache_address is not None) and (device_info.address != cache_address):
             if _debug: DeviceInfoCache._debug("    - device address updated")
 
             # remove the old reference, add the new one
